@@ -11,12 +11,12 @@ def main(tier: str) -> int:
     M = "h_C11"
     conds = []
     if tier == "quick":
-        cfgs = [("c", "r", "/out"), ("c", "register", "out"), ("py", "str", "/out/"), ("cpp", "r", "/out")]
+        cfgs = [("c", "r", "/out"), ("c", "register", "out"), ("py", "str", "/out/")]
         for lang, root, out in cfgs:
             for first in range(12):
                 conds.append(Cond(M, "tree", 900, 120, dict(C11_LANG=lang, C11_ROOT=root, C11_OUT=out, C11_K="2", C11_FIRST=str(first))))
         rep.bounds = dict(types="<= 2 per tree", namespaces="R, R.a.b, R.<reserved word>", names="A, A_1", versions="0.0, 1.0",
-                          configurations="(c, root r, /out), (c, root 'register', relative out), (py, root 'str', trailing slash), (cpp, root r)")
+                          configurations="(c, root r, /out), (c, root register, relative out), (py, root str, trailing slash)")
     else:
         cfgs = [(l, r, o) for l in ("c", "cpp", "py") for r in (("r", "register") if l != "py" else ("r", "str")) for o in ("/out", "out", "/out/")]
         for lang, root, out in cfgs:
